@@ -124,6 +124,14 @@ CLAIMED = {
          "at least dt_min - 1 ms apart, parameter updates in between). The model is tied to the real classes on every run by differential runs "
          "over generated operation sequences and message timings (replies, delivery log, caches, rows, actions must agree).",
          "DESIGN.md §2 C20", "Lean 4 proof over a hand-written model + correspondence check (differential runs of model and implementation on generated histories)"),
+ "C17": ("proof", "PARTIAL. Lean 4 interface theorems over the regenerated plant and allocator programs: the plant's rotor geometry (arm angles, "
+         "spin directions, equal arms — the shipped defaults, checked against the model's tables each run) turns motor forces into exactly the "
+         "rows of the allocator's geometry map with positive gains (sqrt2/2)l, (sqrt2/2)l, CM; composed with C13, when the motors run at the "
+         "commanded speeds the body moment is the range-limited demanded moment scaled by (sqrt2/2, sqrt2/2, 1): no sign or axis mismatch "
+         "between mixer and plant. Closed-loop convergence itself is not a theorem (stability of a saturated sampled nonlinear cascade): the "
+         "check closes the loop on the real casadi functions with the gains of scripts/rdd2_sim.py over sampled initial conditions of the "
+         "envelope (both cascades; thresholds 0.10 m, 0.05 rad, 0.05 rad/s, motor limits, no NaN) and reports a failing trajectory if one exists.",
+         "DESIGN.md §2 C17", TECH_T + "; closed-loop part: falsification sweep over trajectories of the real functions (support, not proof)"),
 }
 checks = []
 for pid, (cat, text, ref, tech) in CLAIMED.items():
